@@ -73,7 +73,7 @@ class DetectCircularReferences(RelativeHandlerInterface):
 
             stack.extend(
                 tp.reference
-                for tp in self.reference_types[ref]
+                for tp in self.reference_types.get(ref, ())
                 if not tp.circular and tp.reference not in path
             )
 
